@@ -54,9 +54,9 @@ META = dict(
                   "kernel_random_matrices": 700, "api_realised": 1700,
                   "api_hist_compared": 9000, "api_scalar_compared": 150000,
                   "api_sparse_objects": 1700, "api_missing_objects": 1000,
-                  "api_asymmetric_objects": 60,
-                  "api_history_objects": 60, "api_history_asymmetric": 15,
-                  "long_line_cases": 5,
+                  "api_asymmetric_objects": 40,
+                  "api_history_objects": 40, "api_history_asymmetric": 10,
+                  "long_line_cases": 3,
                   "conservation_checked": 2000, "boundary_cases": 500,
                   "boundary_cases_modes_disagree_in_R": 150,
                   "sequential_vs_matrix_compared": 3000},
